@@ -71,3 +71,11 @@ Theorem C17_resolve_after_sections :
     srun is_marker (sinit t) (Separate ind :: repeat Next nexts ++ [Resolve]) = Some s' -> main s' = t.
 Proof. exact resolve_after_sections. Qed.
 Print Assumptions C17_resolve_after_sections.
+
+(* ... and no line offset stays registered when the sections are over *)
+Theorem C17_stop_clears_the_offset :
+  forall is_marker s s', stack s <> [] ->
+    (sstep is_marker s Stop = Some s' \/ sstep is_marker s Resolve = Some s') -> line_offset s' = 0%Z.
+Proof. exact stop_clears_the_offset. Qed.
+Print Assumptions C17_stop_clears_the_offset.
+
